@@ -54,9 +54,12 @@ Apply(fs, op) ==
       [] op.kind = "write"       ->
             \* data written at offset 0 of a freshly opened file: it becomes the whole content iff the
             \* file was empty or (known to be) not longer than the data
+            \* a streamed encoder writes the content in many chunks: a write that follows a pending prefix ("Partial")
+            \* continues it - to a longer prefix or to the complete content, as the harness names it
             LET whole == Get(fs.pend, p) = NoPend /\
                          (Get(fs.c, q) = "Empty" \/ (GetSz(fs, q) >= 0 /\ op.n >= 0 /\ GetSz(fs, q) <= op.n))
-            IN Set(fs.c, Put(fs.pend, p, IF whole THEN op.d ELSE "Other"))
+                cont == Get(fs.pend, p) = "Partial" /\ op.d \in {"New", "Partial"}
+            IN Set(fs.c, Put(fs.pend, p, IF whole \/ cont THEN op.d ELSE "Other"))
       [] op.kind = "dwrite"      ->   \* os.sendfile: straight to the file, nothing is buffered in the process
             IF op.n = 0 \/ q = Gone THEN fs
             ELSE LET whole == Get(fs.c, q) = "Empty" \/ (GetSz(fs, q) >= 0 /\ op.n >= 0 /\ GetSz(fs, q) <= op.n)
